@@ -67,11 +67,22 @@ def ign_all(xs):
 def bopd(o):
     return Boolean(np.array(o['vals'], dtype=bool).reshape(o['shape']), mk_mask(o['mask'], o['shape']))
 
-def nopd(o):
-    """numeric operand with item shape"""
+def nopd(o, src=None):
+    """numeric operand with item shape (`item` = numerator axes followed by `drank` denominator axes).
+    With o['share'] and a source object `src` of the same shape/mask, the operand is DERIVED from it:
+      'ctor'  -> built with src's own mask object (cls(values, mask=src.mask): one mask array, two objects)
+      'arith' -> result of src + delta (arithmetic results reuse the operand's mask array)
+    so that representation-identity shortcuts in the comparisons see realistic provenance."""
     cls = CLASSES[o['cls']]
     vals = np.array(o['vals'], dtype=o.get('dtype', 'int64')).reshape(list(o['shape']) + list(o['item']))
-    return cls(vals, mk_mask(o['mask'], o['shape']))
+    kw = {'drank': o['drank']} if o.get('drank') else {}
+    share = o.get('share')
+    if share and src is not None:
+        if share == 'ctor':
+            return cls(vals, src._mask_, **kw)
+        if share == 'arith':
+            return src + cls(vals - src._values_, **kw)
+    return cls(vals, mk_mask(o['mask'], o['shape']), **kw)
 
 def t3_of(vals, mask):
     return [M if m else (T if v else F) for v, m in zip(vals, mask)]
@@ -91,8 +102,9 @@ def obs(r):
 def b_sx(o):
     return [o['shape'], [bool(v) for v in o['vals']], mask_sx(o['mask'], o['shape'])]
 
-def n_sx(o):
-    return [o['shape'], int(np.prod(o['item'], dtype=int)), [int(v) for v in o['vals']], mask_sx(o['mask'], o['shape'])]
+def n_sx(o, item=False):
+    r = [o['shape'], int(np.prod(o['item'], dtype=int)), [int(v) for v in o['vals']], mask_sx(o['mask'], o['shape'])]
+    return r + [list(o['item'])] if item else r
 
 STRICT = {'and': lambda a, b: a & b, 'or': lambda a, b: a | b, 'xor': lambda a, b: a ^ b}
 PYOP = {'and': lambda a, b: a and b, 'or': lambda a, b: a or b, 'xor': lambda a, b: a != b}
@@ -146,18 +158,22 @@ def apply_op(case, a, b):
 BOOL_OPS = ('tvl_and', 'tvl_or', 'strict', 'not', 'red')
 
 
-def build(case, which):
+def build(case, which, src=None):
     o = case.get(which)
     if o is None:
         return None
     if case['op'] in BOOL_OPS or (case['op'] == 'bool' and case['src'] == 'plain'):
         return bopd(o)
-    return nopd(o)
+    return nopd(o, src)
 
 
 def call(case):
     """run the real code; returns the raw result"""
-    return apply_op(case, build(case, 'a'), build(case, 'b'))
+    a = build(case, 'a')
+    b = build(case, 'b', a)          # b may be derived from a (o['share'])
+    if case.get('swap'):
+        a, b = b, a
+    return apply_op(case, a, b)
 
 
 def one_obs(case, thunk):
@@ -167,7 +183,7 @@ def one_obs(case, thunk):
         return C.exc_name(e)
     if case['op'] == 'bool':
         return bool(r)
-    if case['op'] in ('eq', 'ne') and isinstance(r, (bool, np.bool_)) and case.get('incompatible'):
+    if case['op'] in ('tvl_eq', 'tvl_ne') and isinstance(r, (bool, np.bool_)) and case.get('incompatible'):
         return 'incompatible'
     return obs(r)
 
@@ -190,8 +206,9 @@ def impl(case):
     if case['op'] == 'seq':
         # a history: the SAME operand objects are reused by every step (operands must stay usable: a
         # comparison or logical operator may not disturb what later operations see)
-        mk_o = bopd if case['flavour'] == 'boolean' else nopd
-        objs = [mk_o(o) for o in case['opds']]
+        objs = []
+        for o in case['opds']:
+            objs.append(bopd(o) if case['flavour'] == 'boolean' else nopd(o, objs[0] if objs else None))
         out = []
         for st, c in zip(case['steps'], seq_steps(case)):
             a = objs[st['a']]
@@ -251,8 +268,8 @@ def expect(case):
         kind = case['src'] if op == 'bool' else op
         if out is None or a['item'] != b['item']:
             if kind in ('tvl_eq', 'tvl_ne'): return None      # not specified by the property
-            if kind == 'eq': return 'incompatible' if op != 'bool' else False
-            if kind == 'ne': return 'incompatible' if op != 'bool' else True
+            if kind == 'eq': return [[], [F]] if op != 'bool' else False      # unequal, as a whole, never an error
+            if kind == 'ne': return [[], [T]] if op != 'bool' else True
             return 'ValueError'
         ra, rb = bc(item_rows(a) + [None], [len(item_rows(a)) + 1], [len(item_rows(a)) + 1])[:-1], None
         ia = np.empty(len(item_rows(a)), dtype=object); ia[:] = item_rows(a)
@@ -321,10 +338,13 @@ def request(case):
         return ['c14', 'not', b_sx(case['a'])]
     if op == 'red':
         return ['c14', 'red', case['red'], b_sx(case['a']), norm_axes(case['axis'], len(case['a']['shape']))]
-    if op in ('eq', 'ne', 'tvl_eq', 'tvl_ne'):
+    if op in ('eq', 'ne'):
+        a, b = (case['b'], case['a']) if case.get('swap') else (case['a'], case['b'])
+        return ['c14', op, n_sx(a, True), n_sx(b, True)]
+    if op in ('tvl_eq', 'tvl_ne'):
         if case['a']['item'] != case['b']['item']:
             return None
-        if op.startswith('tvl') and np_bcast(case['a']['shape'], case['b']['shape']) is None:
+        if np_bcast(case['a']['shape'], case['b']['shape']) is None:
             return None
         return ['c14', op, n_sx(case['a']), n_sx(case['b'])]
     if op in ('ord', 'tvl_ord'):
@@ -367,7 +387,21 @@ def rand_bopd(rng, shape):
 SHAPE_PAIRS = [([], []), ([], [3]), ([3], []), ([3], [3]), ([1], [3]), ([2, 1], [3]), ([2, 3], [3]), ([2, 3], [2, 1]),
                ([0], []), ([0], [1]), ([2, 0], [1]), ([2], [3]), ([2, 3], [3, 2]), ([1, 1], [2, 2]), ([2, 2, 2], [2, 1, 2])]
 
-def rand_nopd(rng, shape, cls='Scalar', item=()):
+def derived(rng, oa, mode):
+    """an operand with oa's shape, class and mask whose object is DERIVED from oa's (see nopd); fresh values,
+    in particular different values under the common mask"""
+    return dict(oa, vals=[rng.randint(-1, 1) for _ in oa['vals']], share=mode)
+
+DENOMS = [('Scalar', (), (3,)), ('Scalar', (), (1,)), ('Vector', (2,), (2,)), ('Vector', (3,), (2,)), ('Pair', (2,), (3,)),
+          ('Matrix', (2, 2), (2,))]
+
+def rand_nopd(rng, shape, cls='Scalar', item=(), drank=0):
+    o = rand_nopd0(rng, shape, cls, item)
+    if drank:
+        o['drank'] = drank
+    return o
+
+def rand_nopd0(rng, shape, cls='Scalar', item=()):
     n = int(np.prod(shape, dtype=int))
     isz = int(np.prod(item, dtype=int))
     bits = [rng.random() < 0.35 for _ in range(n)]
@@ -471,6 +505,29 @@ def gen_cases(rng, tier):
             oa, ob = rand_nopd(rng, sa, 'Vector', (2,)), rand_nopd(rng, sb, 'Vector', (3,))
             cases.append(mk({'op': 'eq', 'a': oa, 'b': ob, 'incompatible': True}))
             cases.append(mk({'op': 'ne', 'a': oa, 'b': ob, 'incompatible': True}))
+            # ... an item is numerator AND denominator axes (the form every derivative takes): with / without a
+            # denominator, denominators of different sizes (unequal), equal denominators (whole items compared)
+            cls, numer, den = rng.choice(DENOMS)
+            den2 = (den[0] + 1,)
+            for ia, da, ib, db in ((numer, 0, numer + den, 1), (numer + den, 1, numer, 0), (numer + den, 1, numer + den2, 1),
+                                   (numer + den, 1, numer + den, 1)):
+                oa, ob = rand_nopd(rng, sa, cls, ia, da), rand_nopd(rng, sb, cls, ib, db)
+                for op in ('eq', 'ne'):
+                    cases.append(mk({'op': op, 'a': oa, 'b': ob, 'incompatible': True}))
+                cases.append(mk({'op': 'bool', 'src': rng.choice(['eq', 'ne']), 'a': oa, 'b': ob}))
+        # operands DERIVED from one another (shared mask object, different values underneath)
+        for sa in ([3], [2, 2], [1, 3], [4], [2, 1, 2], []):
+            for cls, item in (('Scalar', ()), ('Vector', (2,)), ('Matrix', (2, 2))):
+                oa = rand_nopd(rng, sa, cls, item)
+                ob = derived(rng, oa, rng.choice(['ctor', 'arith']))
+                for swap in (False, True):
+                    for op in ('eq', 'ne', 'tvl_eq', 'tvl_ne'):
+                        cases.append(mk({'op': op, 'a': oa, 'b': ob, 'swap': swap and op in ('eq', 'ne')}))
+                    cases.append(mk({'op': 'bool', 'src': rng.choice(['eq', 'ne']), 'a': oa, 'b': ob}))
+                if cls == 'Scalar':
+                    for sym in ORD:
+                        cases.append(mk({'op': 'ord', 'sym': sym, 'a': oa, 'b': ob}))
+                        cases.append(mk({'op': 'tvl_ord', 'sym': sym, 'a': oa, 'b': ob}))
     # 4. histories: several operations on the same operand objects
     for _ in range(3000 if thorough else 600):
         flavour = rng.choice(['boolean', 'numeric'])
@@ -480,6 +537,8 @@ def gen_cases(rng, tier):
             opds = [rand_bopd(rng, sh) for sh in shapes]
         else:
             opds = [rand_nopd(rng, sh) for sh in shapes]
+            if rng.random() < 0.5:
+                opds[1] = derived(rng, opds[0], rng.choice(['ctor', 'arith']))      # provenance: derived from opds[0]
         steps = []
         for _k in range(rng.randint(4, 8)):
             a, b = rng.randrange(3), rng.randrange(3)
